@@ -700,6 +700,8 @@ class MyPyAstVisitor:
                 ),
             ]
         else:
+            # Every docstring entry names at most one result
+            unmatched_docstrings = list(docstrings)
             for result_list in result_array:
                 result_count = len(result_list)
                 if result_count == 1:
@@ -717,12 +719,14 @@ class MyPyAstVisitor:
                             possible_type = sds_types.UnionType(types=docstring_types)
                         else:
                             possible_type = docstrings[0].type
-                        if possible_type == result_type:
+                        if possible_type == result_type and docstrings[0] in unmatched_docstrings:
                             result_docstring = docstrings[0]
+                            unmatched_docstrings.remove(result_docstring)
                     else:
-                        for docstring in docstrings:
+                        for docstring in unmatched_docstrings:
                             if hash(docstring.type) == hash(result_type):
                                 result_docstring = docstring
+                                unmatched_docstrings.remove(docstring)
                                 break
 
                 result_name = result_docstring.name or next(name_generator)
